@@ -178,15 +178,34 @@ decomposed!(dec2_basis, 2, Point2, Vector2, Basis2<S>, rd_basis2, mk_p2, mk_v2, 
 /// class 0: affine; class 1: projective (Matrix4 only), w checked by the model
 fn g_mat4(rng: &mut Rng, tier: Tier) -> Case {
     let mut c = Case::new();
-    let proj = rng.chance(1, 3);
-    c.class = proj as u16;
+    // class 0 affine; 1 generic projective; 2 projective without translation
+    // (translation column 0,0,0,w); 3 bottom row (0,0,0,k) with k != 1
+    c.class = match rng.below(6) {
+        0..=2 => 0,
+        3 => 1,
+        4 => 2,
+        _ => 3,
+    };
     for _ in 0..2 {
         let mut m = gen::distinct_rats(rng, tier, 16);
-        if !proj {
-            m[3] = Rat::int(0);
-            m[7] = Rat::int(0);
-            m[11] = Rat::int(0);
-            m[15] = Rat::int(1);
+        match c.class {
+            0 => {
+                m[3] = Rat::int(0);
+                m[7] = Rat::int(0);
+                m[11] = Rat::int(0);
+                m[15] = Rat::int(1);
+            }
+            2 => {
+                m[12] = Rat::int(0);
+                m[13] = Rat::int(0);
+                m[14] = Rat::int(0);
+            }
+            3 => {
+                m[3] = Rat::int(0);
+                m[7] = Rat::int(0);
+                m[11] = Rat::int(0);
+            }
+            _ => {}
         }
         c.push_r(&m);
     }
@@ -398,6 +417,121 @@ fn singular<S: Sc>(case: &Case, ck: &mut Ck<S>) {
     ck.truth("Matrix3/2-D inverse_transform None", Transform::<Point2<S>>::inverse_transform(&mb).is_none());
 }
 
+/// Similarity transforms in large and small units on the native types: a
+/// rotation (normalised quaternion with short dyadic components) times a scale
+/// 2^k with k over the whole window in which entries, determinant, cofactors
+/// and inverse stay normal (|k| <= 30 for f32, <= 250 for f64), displacement of
+/// the same order.  The determinant is 2^(3k) up to rounding, i.e. far from
+/// zero, so inverse_transform must be Some and must undo the transform on
+/// points and vectors; allowance 4096 eps of |p| (the unchanged code stays
+/// below 20 eps).  A singularity test with an absolute threshold, or one whose
+/// intermediates (det^2, products of column lengths) leave the range, reports
+/// None for these perfectly conditioned matrices.
+pub fn native_units(cfg: &cgv_core::fw::RunCfg, extra: &mut cgv_core::fw::Extra) {
+    use cgmath::BaseFloat;
+    use cgv_core::acc::Acc;
+    use cgv_core::twin::short;
+    use serde_json::json;
+    fn run<T: BaseFloat>(tag: &str, q: [f64; 4], k: i32, t0: [f64; 3], p0: [f64; 3], eps: f64, acc: &mut Acc, inputs: &dyn Fn() -> serde_json::Value) {
+        let f = |x: f64| T::from(x).unwrap();
+        let g = |x: T| x.to_f64().unwrap();
+        let s = (2.0f64).powi(k);
+        let rot = Quaternion::new(f(q[0]), f(q[1]), f(q[2]), f(q[3])).normalize();
+        let disp = Vector3::new(f(t0[0] * s), f(t0[1] * s), f(t0[2] * s));
+        let p = Point3::new(f(p0[0]), f(p0[1]), f(p0[2]));
+        let v = p.to_vec();
+        let tol = 4096.0 * eps * (p0[0].abs() + p0[1].abs() + p0[2].abs() + t0[0].abs() + t0[1].abs() + t0[2].abs() + 1.0);
+        let dec = Decomposed { scale: f(s), rot, disp };
+        let m4: Matrix4<T> = dec.into();
+        let m3: Matrix3<T> = Matrix3::from(rot) * f(s);
+        let dec2: Decomposed<Vector2<T>, Basis2<T>> = Decomposed {
+            scale: f(s),
+            rot: Rotation2::from_angle(cgmath::Rad(f(q[0]))),
+            disp: Vector2::new(disp.x, disp.y),
+        };
+        let m3_2d: Matrix3<T> = dec2.into();
+        let p2 = Point2::new(p.x, p.y);
+        let mut back3 = |name: &str, r: Option<Point3<T>>, want: Point3<T>| match r {
+            None => acc.truth(&format!("{tag} {name}: inverse_transform is None at scale 2^{k} (determinant about 2^{})", 3 * k), false, inputs),
+            Some(x) => {
+                for i in 0..3 {
+                    acc.check(&format!("{tag} {name} at scale 2^{k}: inverse(transform(p))[{i}]"), g(x[i]), g(want[i]), tol, inputs);
+                }
+            }
+        };
+        back3("Matrix4", Transform::<Point3<T>>::inverse_transform(&m4).map(|i| i.transform_point(m4.transform_point(p))), p);
+        back3("Matrix3 (3-D)", Transform::<Point3<T>>::inverse_transform(&m3).map(|i| Transform::<Point3<T>>::transform_point(&i, Transform::<Point3<T>>::transform_point(&m3, p))), p);
+        // Decomposed: the statement only demands an inverse for |scale| > 1e-6
+        let demanded = s > 1.0e-6;
+        if demanded {
+            back3("Decomposed<Quaternion>", dec.inverse_transform().map(|i| i.transform_point(dec.transform_point(p))), p);
+        }
+        back3(
+            "Matrix4 inverse_transform_vector",
+            Transform::<Point3<T>>::inverse_transform_vector(&m4, m4.transform_vector(v)).map(Point3::from_vec),
+            p,
+        );
+        back3(
+            "Matrix3 (3-D) inverse_transform_vector",
+            Transform::<Point3<T>>::inverse_transform_vector(&m3, Transform::<Point3<T>>::transform_vector(&m3, v)).map(Point3::from_vec),
+            p,
+        );
+        let r2 = Transform::<Point2<T>>::inverse_transform(&m3_2d)
+            .map(|i| Transform::<Point2<T>>::transform_point(&i, Transform::<Point2<T>>::transform_point(&m3_2d, p2)));
+        back3("Matrix3 (2-D affine)", r2.map(|x| Point3::new(x.x, x.y, p.z)), p);
+        let r2d = dec2.inverse_transform().map(|i| i.transform_point(dec2.transform_point(p2)));
+        if demanded {
+            back3("Decomposed<Basis2>", r2d.map(|x| Point3::new(x.x, x.y, p.z)), p);
+        }
+        // matrix and decomposed form agree on the image of p (relative to its size)
+        let (a, b) = (m4.transform_point(p), dec.transform_point(p));
+        for i in 0..3 {
+            acc.check(&format!("{tag} Matrix4::from(Decomposed) vs Decomposed at scale 2^{k}: image[{i}]"), g(a[i]) / s, g(b[i]) / s, tol, inputs);
+        }
+    }
+    let n = if cfg.tier == Tier::Quick { 2000 } else { 100_000 };
+    let mut acc = Acc::new("c08_similarities_in_large_and_small_units");
+    for i in 0..n {
+        let mut rng = Rng::for_case(cfg.seed, "native_units", i);
+        let q = [short(&mut rng, -2.0, 2.0), short(&mut rng, -2.0, 2.0), short(&mut rng, -2.0, 2.0), short(&mut rng, -2.0, 2.0)];
+        if q.iter().map(|x| x * x).sum::<f64>() < 0.25 {
+            continue;
+        }
+        let t0 = [short(&mut rng, -4.0, 4.0), short(&mut rng, -4.0, 4.0), short(&mut rng, -4.0, 4.0)];
+        let p0 = [short(&mut rng, -4.0, 4.0), short(&mut rng, -4.0, 4.0), short(&mut rng, -4.0, 4.0)];
+        let sign = if rng.chance(1, 4) { -1 } else { 1 };
+        let (k64, k32) = (rng.range(-250, 250) as i32, rng.range(-30, 30) as i32);
+        let _ = sign;
+        acc.case("scale 2^k * rotation + displacement");
+        let in64 = || json!({"quaternion_s_xyz": q, "scale_log2": k64, "disp_over_scale": t0, "p": p0, "type": "f64", "index": i});
+        let in32 = || json!({"quaternion_s_xyz": q, "scale_log2": k32, "disp_over_scale": t0, "p": p0, "type": "f32", "index": i});
+        match cgv_core::fw::catch(|| {
+            let mut local = Acc::new("c08_similarities_in_large_and_small_units");
+            run::<f64>("f64", q, k64, t0, p0, f64::EPSILON, &mut local, &in64);
+            run::<f32>("f32", q, k32, t0, p0, f32::EPSILON as f64, &mut local, &in32);
+            local
+        }) {
+            Ok(l) => {
+                acc.checks += l.checks;
+                acc.worst = acc.worst.max(l.worst);
+                if acc.fail.is_none() {
+                    acc.fail = l.fail;
+                }
+            }
+            Err(p) => acc.truth(&format!("unexpected panic: {p}"), false, &in64),
+        }
+        if acc.failed() {
+            break;
+        }
+    }
+    acc.finish(extra, "inverse(transform(p)) = p on native f32/f64; allowance 4096 eps * (|p|+|disp/scale|+1)");
+}
+
+pub fn native(cfg: &cgv_core::fw::RunCfg, extra: &mut cgv_core::fw::Extra) {
+    cgv_core::twins::c08(cfg, extra);
+    native_units(cfg, extra);
+}
+
 const EP_D: &[&str] = &[
     "Transform::{transform_point,transform_vector,concat,concat_self,inverse_transform,inverse_transform_vector} for Decomposed",
     "Decomposed * Decomposed",
@@ -413,13 +547,13 @@ pub fn clauses() -> Vec<Clause> {
         clause!("decomposed3_quaternion", EP_D, g_dec3, dec3_quat),
         clause!("decomposed3_basis3", EP_D, g_dec3, dec3_basis),
         clause!("decomposed2_basis2", EP_D, g_dec2, dec2_basis),
-        clause!("matrix4", EP_M, g_mat4, mat4, weight = 1.0, classes = 2),
+        clause!("matrix4", EP_M, g_mat4, mat4, weight = 1.0, classes = 4),
         clause!("matrix3", EP_M, g_mat3, mat3),
         clause!("singular", EP_M, g_sing, singular, weight = 0.25, classes = 0),
     ]
 }
 
-pub const RULE: &str = "Decomposed: two transforms (scale from small rationals incl. negatives, 0 and the ladder +-k*10^-1..-9 around 1e-6; rotation an exact rational unit quaternion / the Basis3 converted from it / a Basis2 built by look_at_stable from a Pythagorean direction; displacement with distinct non-zero components), one point, one vector. Matrices: affine 3x3 (2-D), arbitrary 3x3 (3-D), affine (class 0) and projective (class 1, cases where the model finds w = 0 are skipped) 4x4, plus singular-by-construction matrices. Non-trivial = both scales outside {0,1} and rotations in general position; distinct = distinct input tuples.";
+pub const RULE: &str = "Decomposed: two transforms (scale from small rationals incl. negatives, 0 and the ladder +-k*10^-1..-9 around 1e-6; rotation an exact rational unit quaternion / the Basis3 converted from it / a Basis2 built by look_at_stable from a Pythagorean direction; displacement with distinct non-zero components), one point, one vector. Matrices: affine 3x3 (2-D), arbitrary 3x3 (3-D), affine (class 0), generic projective (class 1), projective with zero translation column (class 2) and bottom-row (0,0,0,k) (class 3) 4x4 (cases where the model finds w = 0 are skipped), plus singular-by-construction matrices. Non-trivial = both scales outside {0,1} and rotations in general position; distinct = distinct input tuples.";
 pub const ASSUME: &[&str] = &[
     "exact rational arithmetic; for 1e-6 >= |scale| > 0 nothing is demanded of inverse_transform (the property leaves that band open)",
     "Transform<Point2> for Matrix3 is only driven with affine matrices (it performs no perspective divide)",
